@@ -11,7 +11,7 @@ import pickle
 from typedpy import Structure
 from typedpy.commons import InvalidStructureErr
 
-from .. import dump, gen
+from .. import dump, gen, formats
 
 
 def make_ctx():
@@ -72,15 +72,17 @@ def gen_chain(rng, vg, cls, n):
     return ops
 
 
-def gen_cases(rng, tier, n_classes):
+def gen_cases(rng, tier, n_classes, ext=False, prefix="K"):
+    """`ext=True`: the declaration generator also draws the extension field kinds (SizedString, the formatted strings)
+    at every position a scalar can occupy; with ext=False the stream is what it always was"""
     depth = 3 if tier == "quick" else 4
     cases = []
     for ci in range(n_classes):
-        dg = gen.DeclGen(rng, max_depth=rng.choice([1, 2, depth]))
+        dg = gen.DeclGen(rng, max_depth=rng.choice([1, 2, depth]), **({"ext": True} if ext else {}))
         vg = gen.ValGen(rng)
         single = rng.random() < 0.6
         cls = dg.class_decl(0, n_fields=1 if single else None)
-        cls["name"] = f"K{ci}"
+        cls["name"] = f"{prefix}{ci}"
         fix_accepts(cls)
         kws = []
         # (a) valid by construction
@@ -115,13 +117,102 @@ def gen_cases(rng, tier, n_classes):
         if base is not None:
             kws.append(("extra", base + [["zz_extra", rng.choice([1, None, "s"])]]))
         for tag, kw in kws:
-            case = {"suite": "construct", "cls": cls, "kw": kw, "stream": tag,
+            case = {"suite": "construct", "cls": cls, "kw": kw, "stream": ("ext-" + tag if ext else tag),
                     "re": None}
             if tag == "valid" or rng.random() < 0.15:
                 case["chain"] = gen_chain(rng, vg, cls, rng.randint(1, 3 if tier == "quick" else 6))
             case["re"] = gen.re_table(cls, kw, case.get("chain", []))
             cases.append(case)
     return cases
+
+
+XS_FIELDS = [{"k": "string", "maxlen": 3}, {"k": "string", "maxlen": 3, "maxLength": 5}, {"k": "string", "maxlen": 5, "maxLength": 2, "minLength": 1},
+             {"k": "string", "maxlen": 0}, {"k": "string", "fmt": "ipv4"}, {"k": "string", "fmt": "hostname"}, {"k": "string", "fmt": "json"},
+             {"k": "string", "fmt": "time"}, {"k": "string", "fmt": "date:%Y-%m-%d"}, {"k": "string", "fmt": "date:%d/%m/%y"},
+             {"k": "string", "fmt": "ipv4", "maxLength": 8}, {"k": "string", "fmt": "hostname", "minLength": 3}]
+
+
+def xstring_cases():
+    """directed: every extension string field bare and inside every container position (Array / Deque / positional /
+    Set / Tuple / Map key / Map value / AnyOf / nested class / StructureReference), given every valid and near-valid
+    string of its pool - each element must be decided as the bare field decides it"""
+    vg = gen.ValGen(__import__("random").Random(0))
+    cases = []
+    ci = 0
+    for fd in XS_FIELDS:
+        strings = [v for v in vg.boundary(fd) if isinstance(v, str)]
+        good = next((s for s in strings if vg.guess_str_ok(fd, s)), None)
+        wraps = [("bare", fd, lambda s: s),
+                 ("l", {"k": "seqOf", "item": fd}, lambda s: {"l": [good, s] if good is not None else [s]}),
+                 ("q", {"k": "seqOf", "item": fd, "seq": "deque"}, lambda s: {"q": [s]}),
+                 ("pos", {"k": "seqPos", "items": [{"k": "integer"}, fd]}, lambda s: {"l": [1, s]}),
+                 ("s", {"k": "setOf", "item": fd}, lambda s: {"s": [s]}),
+                 ("t", {"k": "tupleOf", "item": fd}, lambda s: {"t": [s]}),
+                 ("t2", {"k": "tuplePos", "items": [fd, {"k": "integer"}]}, lambda s: {"t": [s, 1]}),
+                 ("mk", {"k": "mapOf", "key": fd, "val": {"k": "integer"}}, lambda s: {"m": [[s, 1]]}),
+                 ("mv", {"k": "mapOf", "key": {"k": "string"}, "val": fd}, lambda s: {"m": [["k", s]]}),
+                 ("any", {"k": "anyOf", "fields": [{"k": "integer"}, fd]}, lambda s: s),
+                 ("opt-l", {"k": "seqOf", "item": {"k": "anyOf", "fields": [fd, {"k": "noneF"}]}}, lambda s: {"l": [None, s]}),
+                 ("inl", {"k": "struct", "name": "Inl", "inline": True, "required": ["x"], "addl": False, "fields": [["x", fd]]},
+                  lambda s: {"m": [["x", s]]}),
+                 ("cls", {"k": "struct", "name": "Inner", "required": ["x"], "addl": False, "fields": [["x", fd]]},
+                  lambda s: {"o": ["Inner", [["x", s]]]})]
+        for wname, wfd, mk in wraps:
+            cls = {"k": "struct", "name": f"XS{ci}", "required": ["a"], "addl": False, "fields": [["a", json.loads(json.dumps(wfd))]]}
+            ci += 1
+            fix_accepts(cls)
+            for si, s in enumerate(strings):
+                if wname not in ("bare", "l") and si % 3 != ci % 3 and s != good:
+                    continue            # the full pool bare and as Array elements, a third of it elsewhere
+                kw = [["a", mk(s)]]
+                case = {"suite": "construct", "cls": cls, "kw": kw, "stream": "xstring", "re": None}
+                if si % 4 == 0:
+                    case["chain"] = [{"op": "shallowClone", "kw": [["a", mk(strings[(si + 1) % len(strings)])]]}, {"op": "castTo"}]
+                case["re"] = gen.re_table(cls, kw, case.get("chain", []))
+                cases.append(case)
+    return cases
+
+
+_PROBE_CLASSES = {}
+
+
+def lib_accepts(fmt, s):
+    """what the BARE typedpy field of format `fmt` says about the string `s` (True / False)"""
+    cls = _PROBE_CLASSES.get(fmt)
+    if cls is None:
+        cls = _PROBE_CLASSES[fmt] = type("FmtProbe", (Structure,), {"f": dump.build_field({"k": "string", "fmt": fmt}, dump.Ctx()), "_required": []})
+    try:
+        cls(f=s)
+        return True
+    except (TypeError, ValueError):
+        return False
+
+
+def fmt_deviations(table):
+    """strings of the case's oracle table on which the library's bare field and the documented language differ:
+    [[fmt, s, lib_accepts, [phenomenon, ...]]]"""
+    out = []
+    for p, s, documented in table or []:
+        if formats.is_token(p):
+            fmt = formats.fmt_of_token(p)
+            lib = lib_accepts(fmt, s)
+            if lib != documented:
+                out.append([fmt, s, lib, formats.classify(fmt, s, lib)])
+    return out
+
+
+def deviation_findings(case, impl, prefix_accept, prefix_reject):
+    """finding keys for the format deviations of a case: `<phenomenon-prefix>:<format>:<how>`"""
+    fails = []
+    for fmt, s, lib, flags in impl.get("fmt_dev", []):
+        if (prefix_accept if lib else prefix_reject) is None:
+            continue
+        fam = fmt.split(":")[0]
+        for fl in flags:
+            key = f"{prefix_accept if lib else prefix_reject}:{fam}:{fl}"
+            fails.append((key, f"the {fam} field {'accepts' if lib else 'rejects'} {s!r}, which the documented language "
+                               f"{'excludes' if lib else 'includes'} ({fl})"))
+    return fails
 
 
 def crosstype_cases():
@@ -342,6 +433,9 @@ def run_impl(case):
         res = {"err": err_name(e), "msg": str(e)[:300]}
     res["kw_actual"] = kw_actual
     res["cls_actual"] = cls_actual
+    dev = fmt_deviations(case.get("re"))
+    if dev:
+        res["fmt_dev"] = dev
     res["args_unchanged"] = snap_before == json.dumps([[k, dump.dump_value(v, ctx)] for k, v in kw.items()],
                                                       sort_keys=True)
     if x is not None and case.get("chain"):
@@ -375,6 +469,9 @@ def line(case, impl):
     l = {"suite": "construct", "cls": impl.get("cls_actual", case["cls"]), "kw": impl.get("kw_actual", case["kw"]), "re": case.get("re", [])}
     if case.get("hook"):
         l["hook"] = case["hook"]
+    if impl.get("fmt_dev"):
+        # the model answers these strings as the library does; the deviation itself is reported as a finding
+        l["reOverride"] = [[formats.token(fmt), s, lib] for fmt, s, lib, _ in impl["fmt_dev"]]
     final = impl.get("chain", {}).get("ok") if case.get("chain") else None
     if final is None:
         final = impl.get("ok")
@@ -387,7 +484,14 @@ def line(case, impl):
 
 def top_kind(case):
     fs = case["cls"]["fields"]
-    return fs[0][1]["k"] if len(fs) == 1 else "class"
+    if len(fs) != 1:
+        return "class"
+    fd = fs[0][1]
+    if fd["k"] == "string" and fd.get("fmt") is not None:
+        return "string:" + fd["fmt"].split(":")[0]
+    if fd["k"] == "string" and fd.get("maxlen") is not None:
+        return "string:sized"
+    return fd["k"]
 
 
 def tags(case, impl, model):
@@ -421,6 +525,10 @@ def correspondence(case, impl, model):
         return "dump(build(decl)) != decl: " + json.dumps(impl["abstraction_mismatch"])[:800]
     if not model.get("wfDecl", True):
         return "dumped class declaration is not well-formed (wfDecl false)"
+    table = {(p, s): b for p, s, b in case.get("re") or []}
+    for p, s, b in model.get("fmtLean", []):
+        if table.get((p, s)) is not b:
+            return f"format oracle disagreement on {s!r}: Lean {p} says {b}, the harness's independent implementation {table.get((p, s))}"
     mres = model["res"]
     if "ok" in mres:
         if "ok" not in impl:
